@@ -447,6 +447,78 @@ func runC05(w *World, r *Report) {
 		}
 	}
 
+	// ---- the borrow never wraps the currency
+	r.rule("borrow-decrement-guarded", "every currency decrement by one (the borrow) is immediately guarded: a test of that same field against 0 dominates it, and the field is not written between the test and the decrement", 1)
+	for _, spec := range [][2]string{{"Melange", "Supply"}, {"", "Transfer"}} {
+		f := w.fx(r, "spice", spec[0], spec[1])
+		if f == nil {
+			continue
+		}
+		// the increment may sit in a helper of the operation (a shared carry step): it is checked where it lives
+		for _, fn := range withHelpers(f.fn, deepDepth) {
+			instrsOf(fn, func(in ssa.Instruction) {
+				st, ok := in.(*ssa.Store)
+				if !ok {
+					return
+				}
+				fa, ok := st.Addr.(*ssa.FieldAddr)
+				if !ok || fieldName(fa.X.Type(), fa.Field) != "Currency" {
+					return
+				}
+				bo, ok := st.Val.(*ssa.BinOp)
+				if !ok || bo.Op != token.SUB {
+					return
+				}
+				if k, isK := intConst(bo.Y); !isK || k != 1 {
+					return
+				}
+				p := pathOf(st.Addr)
+				// guard edges: load(p) == MaxUint64 is FALSE
+				var guardLoads []ssa.Value
+				guards := edgesWhere(fn, func(ft fact) bool {
+					if ft.kind != fNeq {
+						return false
+					}
+					for _, pr := range [][2]ssa.Value{{ft.x, ft.y}, {ft.y, ft.x}} {
+						if c, isC := pr[1].(*ssa.Const); isC && c.Value != nil && c.Value.ExactString() == "0" && pathOf(pr[0]) == p {
+							guardLoads = append(guardLoads, pr[0])
+							return true
+						}
+					}
+					return false
+				})
+				ok2 := false
+				why := "no test of " + p + " against 0 dominates the decrement"
+				for _, ge := range guards {
+					// the guard edge must lead straight to the increment: no store to p on any path from the edge to st,
+					// and the increment's block is reachable only through a guard edge
+					if !mustCross(fn, st.Block(), guards) {
+						continue
+					}
+					dirty := false
+					walkFrom(nil, ge.To(), nil, func(x ssa.Instruction) bool {
+						if x == ssa.Instruction(st) {
+							return true
+						}
+						if s2, isSt := x.(*ssa.Store); isSt && pathOf(s2.Addr) == p && s2 != st {
+							// a store to the field before reaching the increment?
+							if reachable([]*ssa.BasicBlock{s2.Block()}, nil)[st.Block()] {
+								dirty = true
+							}
+						}
+						return false
+					})
+					if dirty {
+						why = "the field is written between its underflow test and the decrement (stale test)"
+						continue
+					}
+					ok2 = true
+				}
+				r.check(ok2, "borrow-decrement-guarded", spec[1]+"/"+p+"-=1", lineOf(w, st), "the borrow from "+p+" cannot wrap", why)
+			})
+		}
+	}
+
 	// ---- Drain delegates correctly
 	r.rule("drain-delegates", "Drain(amount, sink) is Transfer(amount, receiver, sink)", 1)
 	if f := w.fx(r, "spice", "Melange", "Drain"); f != nil {
@@ -773,6 +845,8 @@ func runC06(w *World, r *Report) {
 	}
 	checkpointPruneAtomic(w, r)
 	checkpointWritesEveryAddress(w, r, "checkpoint-replaces-every-record")
+	r.rule("flow-classifier", "pourFunds classifies issuer→outflow and receiver→inflow as two independent tests with the same amount", 4)
+	pourFundsRoles(w, r, "flow-classifier")
 
 	// funds lock mode
 	li := ComputeLocks(w, acctScope)
